@@ -288,7 +288,7 @@ func c10gapHistory(w *World) {
 	w.Cfg("buf", buf)
 	w.Cfg("mode", "logon-gap-after-earlier-session")
 	store := NewStore(w)
-	k := 1 + w.W.Draw(6)
+	k := w.W.Draw(7)   // 0: the earlier session received nothing but its Logon
 	gap := w.W.Draw(5) // 0: no gap
 	var acc *AccSide
 	connect := func(name string) (*Client, func()) {
